@@ -9,3 +9,9 @@ package hpa
 //@ func DisableHPA
 //@ props C06
 //@ sets @hpaDisabled := result == nil
+
+// C09 (F12): findHPA reads every HorizontalPodAutoscaler of the namespace untyped; whatever their scaleTargetRef holds
+// (apiVersion is optional, the tree is free-form for the reader), looking for the workload's HPA does not panic.
+//@ func findHPA
+//@ props C09
+//@ requires cli != nil && object != nil
